@@ -48,7 +48,9 @@ func (node *FileNode) ResolveEntrypoint(entrypoint string) (string, error) {
 	if strings.Contains(entrypoint, "://") {
 		return entrypoint, nil
 	}
-	if strings.HasPrefix(entrypoint, "git") {
+	// ... and neither for the scp-like form of a git address (git@host:repo.git//file);
+	// a relative path such as gitlab/Taskfile.yml is an ordinary path
+	if strings.HasPrefix(entrypoint, "git@") {
 		return entrypoint, nil
 	}
 
